@@ -477,6 +477,9 @@ def calculus (cmd : String) (tag : Option String) (nums : List FX) (knot : List 
           | some oc, some [kx, ky], some cr =>
             let mag := (cr.zipIdx.map fun (c, i) => ratAbs c * (ratAbs kx) ^ (i + 1)).foldl (· + ·) 0
             let tol := u53 * 64 * (ratAbs ky + mag)
+            -- a relative bound says nothing once the magnitudes themselves are of subnormal size (gradual underflow: absolute
+            -- errors of 2^-1075): such inputs are judged by the bit-exact correspondence only
+            if tol != 0 && tol < pow2 (-960) then none else
             if ratAbs (evalPolyRat oc kx - ky) > tol then some "integral(knot) does not pass through the knot"
             else if oc.tail != (match (F64.zero false :: cs.zipIdx.map fun (c, i) => if i == 0 then c else F64.div c (F64.ofDec ((i : Nat) + 1) 0)).tail.mapM F64.toRat? with | some l => l | none => [])
               then some "integral(knot) differs from indefinite() in more than the constant term"
@@ -516,6 +519,7 @@ def pwIntegral (cmd : String) (tag : Option String) (src : List (FX × List FX))
           let mag := (ss.map fun (_, cs) => (cs.zipIdx.map fun (c, i) => ratAbs c * X ^ (i + 1)).foldl (· + ·) 0).foldl (· + ·) 0
           let ky := match kn with | some [_, y] => ratAbs y | _ => 0
           let tol := u53 * 256 * (ky + mag) * ((ss.length : Nat) + 1 : Rat)
+          if tol != 0 && tol < pow2 (-960) then none else
           -- each piece's non-constant coefficients are c_i/(i+1)
           let shapeBad := (List.zip ss out).findSome? fun ((_, cs), (_, os)) =>
             let expect := cs.zipIdx.map fun (c, i) => c / (((i : Nat) + 1 : Nat) : Rat)
